@@ -72,6 +72,10 @@ def isVerbKind (a : Ast) : String := match a with
   | union .. => "union" | subqueryMarker .. => "subquery_marker"
 end Ast
 
+/-- the name of a column after `rename(m)` -/
+def renameName (m : List (String × String)) (n : String) : String :=
+  match m.find? (·.1 == n) with | some (_, nn) => nn | none => n
+
 structure Cache where
   nameToUuid  : List (String × Uid)      -- the selected columns, in order
   uuidToName  : List (Uid × String)      -- again only the selected columns, in order
@@ -140,8 +144,7 @@ def update (self : Cache) (node : Ast) (right : Option Cache := none) : Cache :=
         let u2n := dictOf (cols.filterMap (fun c => (self.lookupUid c.1).map (fun n => (c.1, n))))
         { self with uuidToName := u2n, nameToUuid := invertU u2n }
     | .rename _ _ m =>
-        let n2u := dictOf (self.nameToUuid.map (fun e =>
-          (match m.find? (·.1 == e.1) with | some (_, nn) => nn | none => e.1, e.2)))
+        let n2u := dictOf (self.nameToUuid.map (fun e => (renameName m e.1, e.2)))
         { self with nameToUuid := n2u, uuidToName := invert n2u }
     | .mutate _ _ names _ uuids metas =>
         let newCols := (names.zip (metas.zip uuids)).map (fun nvu =>
